@@ -1,5 +1,5 @@
 (* C20 proofs over Merge/Model.v *)
-From Coq Require Import List NArith Bool Arith Lia.
+From Coq Require Import List NArith Bool PeanoNat.
 From PV Require Import Merge.Model.
 Import ListNotations.
 Open Scope N_scope.
@@ -1546,7 +1546,7 @@ Proof.
     + rewrite Hout in Hi'.
       destruct (ins_apply_items (merge_env v p s) _ p a0 [] Hsound eq_refl Hl) as [_ HF].
       destruct (Forall2_nth _ _ _ HF i sl Hi) as (sl2 & Hi2 & _ & Hann).
-      unfold mslots in Hi'. rewrite Hi' in Hi2. inversion Hi2; subst sl2.
+      pose proof (eq_trans (eq_sym Hi') Hi2) as Heq. inversion Heq; subst sl2.
       rewrite Hn, Ha in Hann. exact Hann.
   - intros nm a Hin. apply added_decls_out in Hin.
     destruct Hin as [Hin|(nm0 & a0' & Hdin & -> & ->)]; [left; exact Hin|right].
@@ -1555,4 +1555,88 @@ Proof.
     rewrite forallb_forall in He'. specialize (He' _ Hdin). cbn [fst] in He'.
     destruct nm0 as [|n [|? ?]]; try discriminate. cbn [hd].
     exists a0'. split; [exact Hsd|apply quote_same].
+Qed.
+
+(* ------------------------------------------------------------------------------------------ *)
+(* witnesses of the refuted statements (ids: 10 Inner, 20 Outer / C, 30 f / m, 40 x, 50 self, 60 List) *)
+
+Definition nested_p : list item :=
+  [Cls 20 100 [] [Cls 10 101 [] [Other 102]];
+   Fun 30 103 (mkParams [] [] NoStar [] None) None [Other 104]].
+Definition nested_s : list item :=
+  [Cls 20 100 [] [Cls 10 101 [] [Other 105]];
+   Fun 30 103 (mkParams [] [] NoStar [] None) (Some (EAttr [20] 10)) [Other 105]].
+Definition leak_p : list item :=
+  [Cls 20 100 [] [Assign [TName 40] (mkVal 101 false); Assign [TName 40] (mkVal 102 false);
+                  Fun 30 103 (mkParams [] [mkParam 50 None None] NoStar [] None) None [Other 104]];
+   Fun 30 103 (mkParams [] [mkParam 50 None None] NoStar [] None) None [Other 105]].
+Definition leak_s : list item :=
+  [Cls 20 100 [] [AnnAssign (TName 40) (ESub (EName 60) [EName id_int]) None;
+                  Fun 30 103 (mkParams [] [mkParam 50 None None] NoStar [] None) (Some (EName id_int)) [Other 106]];
+   Fun 30 103 (mkParams [] [mkParam 50 None None] NoStar [] None) (Some (EName id_str)) [Other 106]].
+Definition any_p : list item := [Assign [TName 40] (mkVal 101 false)].
+Definition any_s : list item := [Import true [id_typing] [id_Any] [] 0; AnnAssign (TName 40) (EName id_Any) None].
+
+Definition chain_p : list item :=
+  [Cls 20 100 [] [Assign [TName 40; TName 41] (mkVal 101 false)]].
+Definition chain_s : list item :=
+  [Cls 20 100 [] [AnnAssign (TName 40) (ESub (EName 60) [EName id_int]) None;
+                  AnnAssign (TName 41) (ESub (EName 60) [EName id_int]) None]].
+
+Lemma merge_erases_refuted_lemma : exists p s, forall v, erase (m_out (merge v p s)) <> erase p.
+Proof. exists nested_p, nested_s. intros v H. destruct v; vm_compute in H; discriminate. Qed.
+
+Lemma no_bare_refuted_lemma :
+  exists p s i sl sl' a,
+    dotted_any_free s = true /\
+    ann_at p i = Some sl /\ s_ann sl = None /\
+    ann_at (m_out (merge AsWritten p s)) i = Some sl' /\ s_ann sl' = Some a /\
+    s_which sl = WVar /\ bare_any_never a = true.
+Proof.
+  exists any_p, any_s, 0%nat, (mkSlot (Some [40]) None WVar None),
+         (mkSlot (Some [40]) None WVar (Some (EName id_Any))), (EName id_Any).
+  vm_compute. repeat split; reflexivity.
+Qed.
+
+Lemma inserted_from_stub_refuted_lemma :
+  exists p s i sl sl' a, forall v,
+    dotted_free (filter_stub v s) = true /\ m_clsdecl (merge v p s) = false /\ m_err (merge v p s) = false /\
+    ann_at p i = Some sl /\ s_ann sl = None /\
+    ann_at (m_out (merge v p s)) i = Some sl' /\ s_ann sl' = Some a /\
+    ~ exists a0, stub_gives (stub_all (filter_stub v s)) sl a0 /\ same_ann a a0.
+Proof.
+  set (sh := mkShape 1 [] 0 false false).
+  exists leak_p, leak_s, 4%nat, (mkSlot (Some [30]) (Some sh) WRet None),
+         (mkSlot (Some [30]) (Some sh) WRet (Some (EName id_int))), (EName id_int).
+  intros v.
+  assert (Hs : stub_all (filter_stub v leak_s) =
+               [SVar [20; 40] (ESub (EName 60) [EName id_int]);
+                SFun [20; 30] (mkParams [] [mkParam 50 None None] NoStar [] None) (Some (EName id_int));
+                SFun [30] (mkParams [] [mkParam 50 None None] NoStar [] None) (Some (EName id_str))]).
+  { destruct v; vm_compute; reflexivity. }
+  repeat split; try (destruct v; vm_compute; reflexivity).
+  rewrite Hs. intros (a0 & Hg & Hsame). unfold stub_gives in Hg. cbn [s_qn s_which s_shape] in Hg.
+  destruct Hg as (ps & r & Hin & _ & Hann).
+  cbn [In] in Hin. destruct Hin as [H|[H|[H|[]]]]; try discriminate.
+  inversion H; subst. cbn [ann_in] in Hann. inversion Hann; subst.
+  destruct Hsame as [H1|(n & H1 & H2)]; discriminate.
+Qed.
+
+Lemma inserted_declaration_refuted_lemma :
+  exists p s nm a, forall v,
+    dotted_free (filter_stub v s) = true /\ m_leak (merge v p s) = false /\ m_err (merge v p s) = false /\
+    In (nm, a) (added_decls (m_out (merge v p s))) /\ ~ In (nm, a) (added_decls p) /\
+    ~ exists a0, In (SVar nm a0) (stub_all (filter_stub v s)) /\ same_ann a a0.
+Proof.
+  exists chain_p, chain_s, [40], (ESub (EName 60) [EName id_int]). intros v.
+  assert (Hs : stub_all (filter_stub v chain_s) =
+               [SVar [20; 40] (ESub (EName 60) [EName id_int]); SVar [20; 41] (ESub (EName 60) [EName id_int])]).
+  { destruct v; vm_compute; reflexivity. }
+  assert (Ho : added_decls (m_out (merge v chain_p chain_s)) =
+               [([40], ESub (EName 60) [EName id_int]); ([41], ESub (EName 60) [EName id_int])]).
+  { destruct v; vm_compute; reflexivity. }
+  repeat split; try (destruct v; vm_compute; reflexivity).
+  - rewrite Ho. left. reflexivity.
+  - intros [].
+  - rewrite Hs. intros (a0 & Hin & _). cbn [In] in Hin. destruct Hin as [H|[H|[]]]; discriminate.
 Qed.
